@@ -123,7 +123,62 @@ def inline_new_helpers(prg) -> int:  # type: ignore[no-untyped-def]
         done += progress
         if not progress:
             break
+    done += _substitute_expression_helpers(prg, new)
     return done
+
+
+def _substitute_expression_helpers(prg, new: set[str]) -> int:  # type: ignore[no-untyped-def]
+    """a new helper that is nothing but `return <expr>` over its parameters (a constructor expression or a test that was
+    given a name) is substituted wherever it is called, also inside larger expressions: rules that look for the
+    constructor call find it where it used to be"""
+    count = 0
+    pure: dict[str, tuple[list[str], ast.expr]] = {}
+    for q in new:
+        f = prg.funcs.get(q)
+        if f is None or isinstance(f.node, ast.Lambda) or not _eligible(f.node):
+            continue
+        body = [s for s in f.node.body if not (isinstance(s, ast.Expr) and isinstance(s.value, ast.Constant))]
+        a = f.node.args
+        if len(body) != 1 or not isinstance(body[0], ast.Return) or body[0].value is None or a.vararg or a.kwarg or a.kwonlyargs or a.defaults:
+            continue
+        params = [x.arg for x in a.posonlyargs + a.args]
+        decos = [ast.unparse(d) for d in f.node.decorator_list]
+        if params and params[0] in ("self", "cls") and "staticmethod" not in decos:
+            if any(isinstance(n, ast.Name) and n.id == params[0] for n in ast.walk(body[0].value)):
+                continue  # uses self: leave it to the interpreter
+            params = params[1:]
+        names_in = {n.id for n in ast.walk(body[0].value) if isinstance(n, ast.Name)}
+        if any(isinstance(n, (ast.Lambda, ast.ListComp, ast.SetComp, ast.GeneratorExp, ast.DictComp, ast.NamedExpr)) for n in ast.walk(body[0].value)) and names_in & set(params):
+            continue  # parameter names could be captured by inner scopes
+        pure[q] = (params, body[0].value)
+    if not pure:
+        return 0
+    for caller in list(prg.funcs.values()):
+        if isinstance(caller.node, ast.Lambda) or caller.qualname in new:
+            continue
+
+        class Sub(ast.NodeTransformer):
+            def visit_Call(self, call: ast.Call) -> ast.AST:
+                nonlocal count
+                self.generic_visit(call)
+                res = prg.resolve_callee(caller, call.func)
+                if res not in pure or call.keywords or any(isinstance(x, ast.Starred) for x in call.args):
+                    return call
+                params, expr = pure[res]
+                if len(params) != len(call.args):
+                    return call
+                bind = dict(zip(params, call.args))
+
+                class Ren(ast.NodeTransformer):
+                    def visit_Name(self, n: ast.Name) -> ast.AST:
+                        return copy.deepcopy(bind[n.id]) if isinstance(n.ctx, ast.Load) and n.id in bind else n
+
+                count += 1
+                return ast.fix_missing_locations(ast.copy_location(Ren().visit(copy.deepcopy(expr)), call))
+
+        for stmt in caller.node.body:
+            Sub().visit(stmt)
+    return count
 
 
 def _blocks(node: ast.AST):  # type: ignore[no-untyped-def]
